@@ -465,7 +465,10 @@ def EndStep (s : Shared) (t : Thread) (tid : Tid) (alt : Bool) : Prop :=
       (tRegion t.pc = true ∧ t'.reraise = t.reraise) ∨ t.pc = .eNext ∨ (t.pc = .pRaiseT ∧ t'.reraise.isSome = true)) ∧
     (t'.pc = .done → pcKind t.pc = some .producer →
       (t.pc = .tRel ∧ t'.outcome = t.reraise.map Raise.err) ∨
-      (t.pc ≠ .tRel ∧ tRegion t.pc = false ∧ s'.enqueueDone = true ∧ t'.rets = t.rets ∧ t'.reraise = t.reraise))
+      (t.pc ≠ .tRel ∧ tRegion t.pc = false ∧ s'.enqueueDone = true ∧ t'.rets = t.rets ∧ t'.reraise = t.reraise)) ∧
+    (tRegion t.pc = true → (tRegion t'.pc = true ∨ t'.pc = .done) ∧ t'.reraise = t.reraise ∧ t'.rets = t.rets) ∧
+    (pcKind t.pc = some .batch → t.pc ≠ .bRaise → t'.outcome = t.outcome) ∧
+    (pcKind t.pc = some .stopper → ∀ r, t'.outcome = some (.stop r) → t.outcome = some (.stop r))
 
 set_option hygiene false in
 macro "end_group" : tactic => `(tactic| (
@@ -495,6 +498,94 @@ theorem stepThread_end {s t tid alt} : EndStep s t tid alt := by
   | 0 => exact end_g0 hg | 1 => exact end_g1 hg | 2 => exact end_g2 hg | 3 => exact end_g3 hg
   | 4 => exact end_g4 hg | 5 => exact end_g5 hg | 6 => exact end_g6 hg | 7 => exact end_g7 hg
   | n + 8 => omega
+
+/-- the ghost list `returned` is not read by `Live` -/
+theorem live_returned {s : Shared} {ths : List Thread} (l : List Nat) (hv : Live { sh := s, ths := ths }) :
+    Live { sh := { s with returned := l }, ths := ths } := by
+  obtain ⟨⟨hl, h1, h2, h3, h4, h5, h6, h7⟩, j1, j2, k1, k2⟩ := hv
+  exact ⟨⟨hl, h1, h2, h3, h4, h5, h6, h7⟩, j1, j2, k1, k2⟩
+
+/-- a continuation that passes `rets` through and touches at most `returned` with it -/
+def RetsK (r : List Nat) (k : Shared → Thread → Shared × Thread) : Prop :=
+  ∀ s t, ∃ ret', k s { t with rets := r } = ({ (k s t).1 with returned := ret' }, { (k s t).2 with rets := r })
+
+/-- the statement of `stepThread_rets` for one primitive -/
+def RetsR (r : List Nat) (a b : StepResult) : Prop :=
+  (∀ lbl s' t', a = some (lbl, s', t') → ∃ ret', b = some (lbl, { s' with returned := ret' }, { t' with rets := r })) ∧
+  (a = none → b = none)
+
+theorem retsK_goto (r : List Nat) (pc : Pc) : RetsK r (goto pc) := fun s _ => ⟨s.returned, rfl⟩
+
+theorem acquire_rets {s : Shared} {t : Thread} {tid : Tid} {l : Lk} {k : Shared → Thread → Shared × Thread}
+    (r : List Nat) (hk : RetsK r k) : RetsR r (acquire s t tid l k) (acquire s { t with rets := r } tid l k) := by
+  unfold acquire
+  cases ho : s.owner l with
+  | some u => exact ⟨fun _ _ _ h => (by cases h), fun _ => rfl⟩
+  | none =>
+    obtain ⟨ret', hk'⟩ := hk (s.setOwner l (some tid)) t
+    refine ⟨fun lbl s' t' h => ?_, fun h => (by simp at h)⟩
+    simp only [Option.some.injEq, Prod.mk.injEq] at h
+    obtain ⟨rfl, rfl, rfl⟩ := h
+    exact ⟨ret', by simp only [hk']⟩
+
+theorem release_rets {s : Shared} {t : Thread} {tid : Tid} {l : Lk} {k : Shared → Thread → Shared × Thread}
+    (r : List Nat) (hk : RetsK r k) : RetsR r (release s t tid l k) (release s { t with rets := r } tid l k) := by
+  unfold release
+  by_cases ho : (s.owner l == some tid) = true
+  · simp only [ho, if_true]
+    obtain ⟨ret', hk'⟩ := hk (s.setOwner l none) t
+    refine ⟨fun lbl s' t' h => ?_, fun h => (by simp at h)⟩
+    simp only [Option.some.injEq, Prod.mk.injEq] at h
+    obtain ⟨rfl, rfl, rfl⟩ := h
+    exact ⟨ret', by simp only [hk']⟩
+  · simp only [ho]
+    exact ⟨fun _ _ _ h => (by cases h), fun _ => rfl⟩
+
+theorem notify_rets {s : Shared} {t : Thread} {tid : Tid} {l : Lk} {all : Bool} {k : Shared → Thread → Shared × Thread}
+    (r : List Nat) (hk : RetsK r k) : RetsR r (notify s t tid l all k) (notify s { t with rets := r } tid l all k) := by
+  unfold notify
+  by_cases ho : (s.owner l != some tid) = true
+  · simp only [ho, if_true]
+    exact ⟨fun _ _ _ h => (by cases h), fun _ => rfl⟩
+  · have ho' : (s.owner l != some tid) = false := by simpa using ho
+    simp only [ho', Bool.false_eq_true, if_false]
+    refine ⟨fun lbl s' t' h => ?_, fun h => (by simp at h)⟩
+    simp only [Option.some.injEq, Prod.mk.injEq] at h
+    obtain ⟨rfl, hs, ht⟩ := h
+    obtain ⟨ret', hk'⟩ := hk _ t
+    refine ⟨ret', ?_⟩
+    rw [hk', hs, ht]
+
+theorem retsR_alt {r : List Nat} {a b : StepResult} (alt : Bool) (h : RetsR r a b) :
+    RetsR r (if alt then none else a) (if alt then none else b) := by
+  cases alt
+  · simpa using h
+  · exact ⟨fun _ _ _ h => (by simp at h), fun _ => (by simp)⟩
+
+/-- inside `_stop_enqueue` the arguments `rets` only flow into `returned` -/
+theorem stepThread_rets {s : Shared} {t : Thread} {tid : Tid} {alt : Bool} (r : List Nat) (hreg : tRegion t.pc = true) :
+    RetsR r (stepThread s t tid alt) (stepThread s { t with rets := r } tid alt) := by
+  unfold stepThread
+  cases hpc : t.pc <;> simp only [hpc, tRegion, Bool.false_eq_true] at hreg <;> simp only [hpc]
+  · -- tAcq
+    refine retsR_alt alt (acquire_rets r ?_)
+    intro s0 t0
+    refine ⟨s0.returned ++ r, ?_⟩
+    have e : Shared.enqueueDone { s0 with stop := min (s0.stop + 1) s0.start, returned := s0.returned ++ r } =
+        Shared.enqueueDone { s0 with stop := min (s0.stop + 1) s0.start, returned := s0.returned ++ t0.rets } := rfl
+    simp only [e]
+    split <;> rfl
+  · exact retsR_alt alt (release_rets r (retsK_goto r _))
+  · exact retsR_alt alt (acquire_rets r (retsK_goto r _))
+  · exact retsR_alt alt (notify_rets r (retsK_goto r _))
+  · exact retsR_alt alt (release_rets r (retsK_goto r _))
+  · exact retsR_alt alt (acquire_rets r (retsK_goto r _))
+  · exact retsR_alt alt (release_rets r (retsK_goto r _))
+  · exact retsR_alt alt (acquire_rets r (retsK_goto r _))
+  · exact retsR_alt alt (notify_rets r (retsK_goto r _))
+  · exact retsR_alt alt (release_rets r (retsK_goto r _))
+  · exact retsR_alt alt (acquire_rets r (retsK_goto r _))
+  · exact retsR_alt alt (release_rets r (fun s0 _ => ⟨s0.returned, rfl⟩))
 
 theorem set_self_of_get {α} {l : List α} {i : Nat} {a : α} (h : l[i]? = some a) : l.set i a = l := by
   apply List.ext_getElem?
